@@ -5,12 +5,13 @@ CONSTANTS
   P1 = "trace.parent_id"
   P2 = "parentId"
   MapOrder <- MapOrderDef
-  TraceOrders <- OrdersQuick
-  ParentOrders <- OrdersQuick
+  TraceOrders <- TraceOrdersQuick
+  ParentOrders <- ParentOrdersQuick
   Orders <- OrdersQuick
   SeqPaths = {"msgp"}
   MapPaths = {"map"}
   PTypings = {"absent", "str", "empty"}
+  STypings = {"absent", "log", "trace"}
   Faithful = TRUE
 CHECK_DEADLOCK FALSE
 INVARIANTS TypeOK C21Belongs C21ConfiguredOrder C21Root C21OrderIndependent OnlyIdeal
